@@ -7,7 +7,9 @@ Record c14_case := {
   c14_endpoints : list aendpoint;          (* as extracted by ParseEcho (observed), with the kinds of the query parameters *)
   c14_methods : option (list method_ir);   (* parsed from the real client text; None = generation refused *)
   c14_mentioned : list string;             (* type names mentioned by the method signatures *)
-  c14_declared : list string               (* type names declared in the file *)
+  c14_declared : list string;              (* type names declared in the file *)
+  c14_mode : nat   (* 0: every endpoint counts; 1: the endpoints of the recorded finding (data with GET / DELETE) are left
+                      out; 2: only they count (a file showing the finding is evaluated twice: it hides nothing else) *)
 }.
 
 Definition conv_eqb (a b : conv) : bool :=
@@ -49,13 +51,21 @@ Definition request_eqb (a b : request) : bool :=
 Definition builtin_ts (n : string) : bool :=
   existsb (String.eqb n) ["string"; "number"; "boolean"; "unknown"; "null"; "File"; "Blob"; "never"; "Record"].
 
+Definition get_with_data (a : aendpoint) : bool :=
+  let e := ae a in
+  (String.eqb (ep_method e) "GET" || String.eqb (ep_method e) "DELETE")
+  && negb (String.eqb (ep_input e) "" && String.eqb (ep_file e) "" && match ep_form_values e with [] => true | _ => false end && String.eqb (fst (ep_json e)) "").
+
+Definition counted (c : c14_case) (a : aendpoint) : bool :=
+  match c14_mode c with 0 => true | 1 => negb (get_with_data a) | _ => get_with_data a end.
+
 (** the property on the parsed client alone: each method issues the request specified for its endpoint,
     and every type its signature mentions is declared exactly once (or built in) *)
 Definition chk_prop (c : c14_case) : bool :=
   match c14_methods c with
   | Some ms =>
       Nat.eqb (List.length ms) (List.length (c14_endpoints c))
-      && forallb (fun am => request_eqb (call (snd am)) (request_of (fst am))) (combine (c14_endpoints c) ms)
+      && forallb (fun am => negb (counted c (fst am)) || request_eqb (call (snd am)) (request_of (fst am))) (combine (c14_endpoints c) ms)
       && forallb (fun n => builtin_ts n || Nat.eqb (List.length (filter (String.eqb n) (c14_declared c))) 1) (c14_mentioned c)
   | None => false
   end.
